@@ -5,6 +5,8 @@ type nat =
 | O
 | S of nat
 
+val option_map : ('a1 -> 'a2) -> 'a1 option -> 'a2 option
+
 val fst : ('a1 * 'a2) -> 'a1
 
 val snd : ('a1 * 'a2) -> 'a2
@@ -20,6 +22,8 @@ type comparison =
 
 val add : nat -> nat -> nat
 
+val sub : nat -> nat -> nat
+
 type positive =
 | XI of positive
 | XO of positive
@@ -29,8 +33,15 @@ type n =
 | N0
 | Npos of positive
 
+type z =
+| Z0
+| Zpos of positive
+| Zneg of positive
+
 module Nat :
  sig
+  val eqb : nat -> nat -> bool
+
   val leb : nat -> nat -> bool
 
   val ltb : nat -> nat -> bool
@@ -48,6 +59,10 @@ module Coq_Pos :
  sig
   val succ : positive -> positive
 
+  val add : positive -> positive -> positive
+
+  val add_carry : positive -> positive -> positive
+
   val pred_double : positive -> positive
 
   type mask = Pos.mask =
@@ -64,6 +79,8 @@ module Coq_Pos :
   val sub_mask : positive -> positive -> mask
 
   val sub_mask_carry : positive -> positive -> mask
+
+  val mul : positive -> positive -> positive
 
   val size : positive -> positive
 
@@ -86,7 +103,11 @@ module N :
 
   val double : n -> n
 
+  val add : n -> n -> n
+
   val sub : n -> n -> n
+
+  val mul : n -> n -> n
 
   val compare : n -> n -> comparison
 
@@ -121,9 +142,40 @@ val ascii_of_N : n -> char
 
 val ascii_of_nat : nat -> char
 
+val n_of_digits : bool list -> n
+
+val n_of_ascii : char -> n
+
+val nat_of_ascii : char -> nat
+
+val hd : 'a1 -> 'a1 list -> 'a1
+
+val nth : nat -> 'a1 list -> 'a1 -> 'a1
+
+val last : 'a1 list -> 'a1 -> 'a1
+
+val removelast : 'a1 list -> 'a1 list
+
 val map : ('a1 -> 'a2) -> 'a1 list -> 'a2 list
 
+val flat_map : ('a1 -> 'a2 list) -> 'a1 list -> 'a2 list
+
+val fold_left : ('a1 -> 'a2 -> 'a1) -> 'a2 list -> 'a1 -> 'a1
+
+val existsb : ('a1 -> bool) -> 'a1 list -> bool
+
 val forallb : ('a1 -> bool) -> 'a1 list -> bool
+
+val skipn : nat -> 'a1 list -> 'a1 list
+
+module Z :
+ sig
+  val opp : z -> z
+
+  val to_nat : z -> nat
+
+  val of_N : n -> z
+ end
 
 val eqb0 : char list -> char list -> bool
 
@@ -152,6 +204,10 @@ val mem_str : char list -> char list list -> bool
 
 val list_str_eqb : char list list -> char list list -> bool
 
+val concat_str : char list list -> char list
+
+val join_str : char list -> char list list -> char list
+
 val digit_char : nat -> char
 
 val dec_N_fuel : nat -> n -> char list -> char list
@@ -159,6 +215,14 @@ val dec_N_fuel : nat -> n -> char list -> char list
 val dec_N : n -> char list
 
 val dec_nat : nat -> char list
+
+val is_digit : char -> bool
+
+val parse_N_acc : char list -> n -> n option
+
+val parse_N : char list -> n option
+
+val parse_Z : char list -> z option
 
 type sexp =
 | SAtom of char list
@@ -181,6 +245,12 @@ val d_str : sexp -> char list option
 val d_list : (sexp -> 'a1 option) -> sexp list -> 'a1 list option
 
 val d_strs : sexp -> char list list option
+
+val d_Z : sexp -> z option
+
+val d_nat : sexp -> nat option
+
+val d_bool : sexp -> bool option
 
 val bad_input : sexp
 
@@ -258,5 +328,280 @@ val builtin_names : (char list * char list) list
 val documented : char list list
 
 val math_env : menv
+
+type wpart =
+| WLit of char list
+| WVar of bool * char list
+
+type word = wpart list
+
+type test =
+| TFileF of word
+| TFileE of word
+| TFileD of word
+| TStrZ of word
+| TEq of word * word
+| TNe of word * word
+| TPrefix of word * char list
+
+type cmd =
+| CAssign of char list * word
+| CScriptDir of char list
+| CPwdTo of char list
+| CSetE
+| CSetX
+| CShiftOpt
+| CExit of nat
+| CEcho of word list * word option
+| CCd of word
+| CSource of word
+| CExport of char list * word
+| CEval of char list * char list * cmd
+| CHeredoc of word * char list
+| CRun of word list
+| CIf of branches * cmds
+| CGetopts of char list * char list * arms
+and cmds =
+| CNil
+| CCons of cmd * cmds
+and branches =
+| BNil
+| BCons of test * cmds * branches
+and arms =
+| ANil
+| ACons of char list * cmds * arms
+
+val prefix_strip : char list -> char list -> char list option
+
+val split_sub : char list -> char list -> (char list * char list) option
+
+val strip_suffix : char list -> char list -> char list option
+
+val ends_slash : char list -> bool
+
+val starts_slash : char list -> bool
+
+val has_slash : char list -> bool
+
+type path = char list list
+
+val split_slash : char list -> char list list
+
+val norm_step : path -> char list -> path
+
+val resolve0 : path -> char list -> path option
+
+val path_str : path -> char list
+
+val basename : path -> char list
+
+val is_prefix : path -> path -> bool
+
+type node =
+| Dir
+| File of char list
+
+type fs = (path * node option) list
+
+val fs_lookup : fs -> path -> node option
+
+val fs_get : fs -> path -> node option
+
+val fs_set : fs -> path -> node option -> fs
+
+val fs_rm_tree : fs -> path -> fs
+
+val is_dir : fs -> path -> bool
+
+val is_file : fs -> path -> bool
+
+val exists_ : fs -> path -> bool
+
+val file_content : fs -> path -> char list option
+
+val write_file : fs -> path -> char list -> fs option
+
+val mkdir_at : fs -> path -> fs option
+
+type state = { vars : (char list * char list) list;
+               exported : char list list; cwd : path; fsys : fs;
+               pos : char list list; optind : nat; errexit : bool;
+               last0 : nat; steps : nat; tlog : char list list list;
+               unmodelled : bool; scriptdir : path }
+
+val upd_vars : state -> (char list * char list) list -> state
+
+val upd_exported : state -> char list list -> state
+
+val upd_cwd : state -> path -> state
+
+val upd_fs : state -> fs -> state
+
+val upd_pos : state -> char list list -> state
+
+val upd_optind : state -> nat -> state
+
+val upd_errexit : state -> bool -> state
+
+val upd_last : state -> nat -> state
+
+val mark_unmodelled : state -> state
+
+val take_step : state -> char list list -> state
+
+val assoc_get : (char list * char list) list -> char list -> char list option
+
+val assoc_set :
+  (char list * char list) list -> char list -> char list ->
+  (char list * char list) list
+
+val set_var : state -> char list -> char list -> state
+
+val get_var : state -> char list -> char list
+
+val get_env : state -> char list -> char list
+
+val expand_part : state -> wpart -> char list * bool
+
+val expand_str : state -> word -> char list
+
+val expand_word : state -> word -> char list list
+
+val expand_words : state -> word list -> char list list
+
+val one_path : state -> word -> path option option
+
+val eval_test : state -> test -> bool option
+
+type gev =
+| GOpt of char list * char list
+| GBad
+
+val opt_kind : char list -> char -> bool option
+
+val scan_chars : char list -> char list -> gev list * char list option
+
+val getopts_events : char list -> char list list -> gev list * nat
+
+val pat_match : char list -> char list -> bool
+
+val sourced_release : char list
+
+val sourced_setup : char list
+
+val sourced_entry : char list
+
+val nl : char list
+
+val job_output : char list -> char list -> char list
+
+val converted : char list -> char list
+
+val opt_or : 'a1 option -> 'a1 -> 'a1
+
+type outcome =
+| Cont of state
+| Exit of nat * state
+
+val finish : state -> nat -> outcome
+
+val unmod : state -> outcome
+
+val res : state -> char list -> path option
+
+val cp_effect : state -> char list -> char list -> fs option
+
+val is_file_s : state -> char list -> bool
+
+val is_dir_s : state -> char list -> bool
+
+val exists_s : state -> char list -> bool
+
+val content_s : state -> char list -> char list
+
+val write_s : state -> fs -> char list -> char list -> fs option
+
+val mkdir_s : state -> fs -> char list -> fs option
+
+val obind : 'a1 option -> ('a1 -> 'a2 option) -> 'a2 option
+
+type tool_res =
+| TOk of fs
+| TFail
+| TUnmodelled
+
+val of_opt : fs option -> tool_res
+
+val known_tools : char list list
+
+val tool_effect :
+  char list -> state -> char list -> char list list -> tool_res
+
+val run_tool :
+  (nat -> bool) -> char list -> state -> char list list -> outcome
+
+val run_source : (nat -> bool) -> state -> word -> outcome
+
+val run_events :
+  char list -> (char list -> (state -> outcome) option) -> gev list -> state
+  -> outcome
+
+val exec_cmds : (nat -> bool) -> char list -> cmds -> state -> outcome
+
+type result0 = { r_exit : nat; r_st : state }
+
+val run_script : (nat -> bool) -> char list -> cmds -> state -> result0
+
+type config = { cf_filelist : nat; cf_release : bool; cf_entry : bool;
+                cf_calib : bool; cf_cvsroot : bool }
+
+val default_filelist : char list
+
+val pkg_content : char list -> char list
+
+val opt_if : bool -> 'a1 -> 'a1 option
+
+val init_fs : char list list -> config -> fs
+
+val init_state : config -> fs -> char list list -> state
+
+val invoke :
+  cmds -> config -> fs -> char list list -> (nat -> bool) -> char list ->
+  result0
+
+type invocation = { i_args : char list list; i_oracle : (nat -> bool);
+                    i_nonce : char list }
+
+val run_history : cmds -> config -> fs -> invocation list -> result0 list
+
+val pkg_atlas : char list list
+
+val pkg_cms : char list list
+
+val oracle_of : nat list -> nat -> bool
+
+val d_config : sexp -> config option
+
+val d_inv : sexp -> invocation option
+
+val d_stale : sexp -> (char list * char list) option
+
+val snap_dirs : char list list
+
+val enc_fs : fs -> sexp
+
+val enc_result : result0 -> sexp
+
+val add_stale : fs -> (char list * char list) list -> fs
+
+val run_wire : cmds -> char list list -> sexp -> sexp
+
+val run_getopts : sexp -> sexp
+
+val script : cmds
+
+val script0 : cmds
+
+val script1 : cmds
 
 val dispatch : char list -> sexp -> sexp
